@@ -65,6 +65,7 @@ var frags = map[string]frag{
 	"nestE2":   {src: "FnestD EN3", dst: "FnestD EN4", notes: []string{":conv CvE3 FnestD.In.X FnestD.In.X"}, scalars: []string{"FnestD.In.X:int", "FnestD.In.Y:string", "FnestD.K:int"}},
 	"ptr":      {src: "Fptr *int", dst: "Fptr *int"},
 	"npath":    {src: "Pn *EN", dst: "Fnp int", notes: []string{":map Pn.X Fnp"}, scalars: []string{"Fnp:int"}},
+	"sibpfx":   {src: "Fsp EN\n\tFspQ vrt.VP", dst: "Fsp EN\n\tFspQ vrt.VP", notes: []string{":literal Fsp.X 42"}, scalars: []string{"Fsp.X:int", "Fsp.Y:string", "FspQ.Pub:int"}},
 	"skipci":   {src: "Fskipci int", dst: "Fskipci int", notes: []string{":skip fskipci", ":case:off"}, scalars: []string{"Fskipci:int"}},
 	"skip":     {src: "Fskip int", dst: "Fskip int", notes: []string{":skip Fskip"}, scalars: []string{"Fskip:int"}},
 	"nomatch":  {dst: "Fnomatch int", scalars: []string{"Fnomatch:int"}},
@@ -161,6 +162,12 @@ type VInt int
 type VS struct {
 	X int
 	Y string
+}
+
+// VP has a member that only this package can see: a VP is copied as a whole or not at all.
+type VP struct {
+	Pub int
+	hid int
 }
 
 type Event struct {
@@ -342,7 +349,7 @@ func (p *Prog) Scalars() []string {
 func (p *Prog) Notes() []string {
 	n := []string{":typecast", ":stringer", ":getter"}
 	switch p.Style {
-	case "arg":
+	case "arg", "argval":
 		n = append(n, ":style arg")
 	case "argrev":
 		n = append(n, ":style arg", ":reverse")
@@ -364,7 +371,7 @@ func (p *Prog) Notes() []string {
 // Method renders the interface method.
 func (p *Prog) Method() string {
 	res := "*D" + p.Name
-	if p.Style == "retval" {
+	if p.Style == "retval" || p.Style == "argval" {
 		res = "D" + p.Name
 	}
 	if p.RetErr {
